@@ -33,6 +33,16 @@ func pickN(r *lib.Rng, xs []int, n int) []int {
 	return out
 }
 
+// spare: how the slice behind an array source is allocated (see world.construct): 0 = exactly its
+// length, 1 = a window of the case's arena (the items of the array sources created later lie in
+// its spare capacity).
+func spare(r *lib.Rng) int {
+	if r.Chance(1, 2) {
+		return 1
+	}
+	return 0
+}
+
 func via(r *lib.Rng) string {
 	if r.Chance(1, 4) {
 		return "compose"
@@ -45,6 +55,9 @@ func via(r *lib.Rng) string {
 // from has been send-closed; merges take array-backed readers only (anything else starts
 // forwarder goroutines and is covered by genConc).
 func genSeq(r *lib.Rng, tier string) *Case {
+	if r.Chance(1, 5) {
+		return genArr(r, tier)
+	}
 	c := &Case{Mode: "seq"}
 	sh := newShadow()
 	maxOps, maxH := 22, 12
@@ -67,7 +80,7 @@ func genSeq(r *lib.Rng, tier string) *Case {
 			for i := range xs {
 				xs[i] = nextVal()
 			}
-			emit(Op{K: "array", Xs: xs})
+			emit(Op{K: "array", Xs: xs, Spare: spare(r)})
 			return
 		}
 		cp := r.Intn(7)
@@ -207,6 +220,77 @@ func genSeq(r *lib.Rng, tier string) *Case {
 	return c
 }
 
+// genArr: a script over array-backed readers only (what a graph does with the outputs of
+// non-streaming nodes): 2-4 array sources, then copies and merges of whatever array-backed readers
+// exist (a copy of an array reader and the merge of array readers are array readers again, built
+// without goroutines: they share / concatenate the slices behind them), a few early reads and
+// closes, and a drain phase that reads every remaining reader to the end.
+func genArr(r *lib.Rng, tier string) *Case {
+	c := &Case{Mode: "seq"}
+	sh := newShadow()
+	maxOps, maxH := 9, 14
+	if tier == "thorough" {
+		maxOps, maxH = 16, 24
+	}
+	emit := func(o Op) {
+		c.Ops = append(c.Ops, o)
+		switch o.K {
+		case "array", "copy", "merge":
+			sh.apply(o)
+		}
+	}
+	val := uint64(0)
+	newArr := func() {
+		xs := make([]uint64, r.Intn(5))
+		for i := range xs {
+			val++
+			xs[i] = val
+		}
+		emit(Op{K: "array", Xs: xs, Spare: spare(r)})
+	}
+	for i, n := 0, 2+r.Intn(3); i < n; i++ {
+		newArr()
+	}
+	for i, n := 0, 3+r.Intn(maxOps); i < n; i++ {
+		open := liveHandles(sh, func(_ int, h *shadowH) bool { return !h.closed })
+		// (the merge of empty array readers is an empty multi reader, and its copies are children
+		// whose merge would start goroutines: like genSeq, merge array-backed readers only)
+		arrs := liveHandles(sh, func(_ int, h *shadowH) bool { return h.kind == "arr" && !h.closed })
+		switch k := r.Intn(20); {
+		case k < 8 && len(arrs) >= 2 && len(sh.hs) < maxH:
+			m := 2
+			if len(arrs) >= 3 && r.Chance(1, 3) {
+				m = 3
+			}
+			emit(Op{K: "merge", Hs: pickN(r, arrs, m), Via: via(r)})
+		case k < 14 && len(open) >= 1 && len(sh.hs) < maxH:
+			emit(Op{K: "copy", H: open[r.Intn(len(open))], N: 2 + r.Intn(2), Via: via(r)})
+		case k < 16 && len(sh.hs) < maxH:
+			newArr()
+		case k < 19 && len(open) >= 1:
+			h := open[r.Intn(len(open))]
+			emit(Op{K: "recv", H: h})
+			sh.recvArr(h)
+		case len(open) >= 1:
+			h := open[r.Intn(len(open))]
+			emit(Op{K: "close", H: h})
+			sh.hs[h].closed = true
+		}
+	}
+	for _, h := range liveHandles(sh, func(_ int, h *shadowH) bool { return !h.closed }) {
+		left := len(sh.hs[h].e.strands(nil)[0]) - sh.hs[h].delivered
+		for i := 0; i <= left; i++ { // the items that are left, then EOF
+			emit(Op{K: "recv", H: h})
+			sh.recvArr(h)
+		}
+		if r.Chance(3, 4) {
+			emit(Op{K: "close", H: h})
+			sh.hs[h].closed = true
+		}
+	}
+	return c
+}
+
 func sortInts(xs []int) {
 	for i := 1; i < len(xs); i++ {
 		for j := i; j > 0 && xs[j] < xs[j-1]; j-- {
@@ -280,7 +364,7 @@ func genConc(r *lib.Rng, tier string) *Case {
 			val++
 			xs[j] = 500 + val
 		}
-		emit(Op{K: "array", Xs: xs})
+		emit(Op{K: "array", Xs: xs, Spare: spare(r)})
 	}
 	wide := r.Chance(1, 8) // a merge of more than maxSelectNum streams (reflect.Select path)
 	nb := 1 + r.Intn(maxBuild)
